@@ -1,8 +1,374 @@
 import Vgi.Model.ScriptHooks
+import Vgi.Props.C04
+import Vgi.Props.C06
+/-!
+# C37 — Dispatch hooks see exactly one start and one end per dispatched call
+
+Theorems about `dispatchCall` / `hookStart` / `hookEnd` / `historyEvents` (the hook section of
+`Server.serveOne` and `HttpServer.startDispatchHook`) and about the outcome functions of every
+call kind of the scripted family on both transports (`pipeUnaryOutcome`, `pipeStreamOutcome`,
+`httpUnaryOutcome`, `httpInit`, `httpExchange`, …) — the definitions `Vgi.Drive.C37` executes.
+Quantifiers: every hook behaviour (normal, nil context, panic in start, panic in end), every
+token, every call outcome, every call history; for the error clause every method, script,
+level, request id, input stream, batch limit and cursor.
+-/
 namespace Vgi.Props.C37
 open Vgi Vgi.Script
 
-/-- With no hook installed nothing is recorded. -/
-theorem no_hook_no_events (tok : Nat) (o : CallOutcome) : dispatch none tok o = [] := rfl
+/-! ### One start, one end, same token -/
+
+/-- **one_start_one_end.** For a dispatched call and a hook whose start returns normally
+(whatever it does in end, and even if it returns a nil context) the hook's log for the call is
+exactly: start minting `tok`, then ONE end carrying that same token and `handlerErr != nil`. -/
+theorem one_start_one_end (mode : HookMode) (tok : Nat) (o : CallOutcome)
+    (hd : o.dispatched = true) (hm : mode ≠ .panicStart) :
+    dispatch (some mode) tok o = [.start tok false, .finish (some tok) o.handlerErr (mode == .panicEnd)] := by
+  cases mode <;> simp_all [dispatch, dispatchCall, hookStart, hookEnd, hookOnStart, hookOnEnd]
+
+/-- **start panic ⇒ inactive ⇒ no end.** -/
+theorem panicking_start_no_end (tok : Nat) (o : CallOutcome) (hd : o.dispatched = true) :
+    dispatch (some .panicStart) tok o = [.start tok true] := by
+  simp [dispatch, dispatchCall, hookStart, hookEnd, hookOnStart, hd]
+
+/-- A call that is answered before the dispatch point (unknown method, refused input) and a
+server without a hook record nothing. -/
+theorem not_dispatched_no_events (hook : Option HookMode) (tok : Nat) (o : CallOutcome)
+    (h : hook = none ∨ o.dispatched = false) : dispatch hook tok o = [] := by
+  rcases h with h | h
+  · simp [dispatch, dispatchCall, h]
+  · cases hook <;> simp [dispatch, dispatchCall, h]
+
+def isEndFor (tok : Nat) : HookEvent → Bool
+  | .finish (some t) _ _ => t == tok
+  | _ => false
+
+def isStart : HookEvent → Bool
+  | .start .. => true
+  | _ => false
+
+/-- **exactly once.** In the log of a dispatched call there is exactly one start; if it returned
+normally there is exactly one end with its token and that end comes after the start; if it
+panicked there is no end at all. No end ever carries another (or a nil) token. -/
+theorem end_exactly_once (mode : HookMode) (tok : Nat) (o : CallOutcome) (hd : o.dispatched = true) :
+    ((dispatch (some mode) tok o).filter isStart).length = 1 ∧
+    ((dispatch (some mode) tok o).filter (isEndFor tok)).length = (if mode = .panicStart then 0 else 1) ∧
+    ((dispatch (some mode) tok o).filter (fun e => !isStart e && !isEndFor tok e)) = [] ∧
+    (dispatch (some mode) tok o).head?.map isStart = some true := by
+  by_cases hm : mode = .panicStart
+  · subst hm; rw [panicking_start_no_end tok o hd]; simp [List.filter_cons, isStart, isEndFor]
+  · rw [one_start_one_end mode tok o hd hm]; simp [List.filter_cons, isStart, isEndFor, hm]
+
+/-- **hook panics are contained.** Whatever the hook does, the dispatch returns normally with the
+body's own outcome: the same outcome a server without a hook produces. -/
+theorem hook_panic_contained (hook : Option HookMode) (tok : Nat) (o : CallOutcome) :
+    (dispatchCall hook tok o).1 = .ret o ∧ (dispatchCall hook tok o).1 = (dispatchCall none tok o).1 := by
+  cases hook with
+  | none => simp [dispatchCall]
+  | some m => by_cases hd : o.dispatched = true <;> simp [dispatchCall, hd]
+
+/-! ### Histories: tokens are fresh, later calls are unaffected -/
+
+def dispatchedBefore : List (HookMode × CallOutcome) → Nat
+  | [] => 0
+  | (_, o) :: r => (if o.dispatched then 1 else 0) + dispatchedBefore r
+
+/-- **later calls unaffected.** In a history the log of call `i` is what that call alone would
+record with the next free token: it depends on the earlier calls only through HOW MANY of them
+were dispatched — not on what their hooks did (returned, panicked in start, panicked in end). -/
+theorem history_local : ∀ (cs : List (HookMode × CallOutcome)) (tok i : Nat) (h : i < cs.length),
+    (historyEvents tok cs)[i]? =
+      some (dispatch (some cs[i].1) (tok + dispatchedBefore (cs.take i)) cs[i].2) := by
+  intro cs
+  induction cs with
+  | nil => intro tok i h; simp at h
+  | cons c rest ih =>
+    intro tok i h
+    obtain ⟨m, o⟩ := c
+    cases i with
+    | zero => simp [historyEvents, dispatchedBefore]
+    | succ j =>
+      have hj : j < rest.length := by simpa using h
+      have heq : nextToken tok o + dispatchedBefore (rest.take j) =
+          tok + dispatchedBefore (((m, o) :: rest).take (j + 1)) := by
+        unfold nextToken
+        simp only [List.take_succ_cons, dispatchedBefore]
+        by_cases hd : o.dispatched = true <;> simp [hd] <;> omega
+      simp only [historyEvents, List.getElem?_cons_succ, List.getElem_cons_succ]
+      rw [ih (nextToken tok o) j hj, heq]
+
+theorem dispatchedBefore_congr : ∀ (cs cs' : List (HookMode × CallOutcome)) (i : Nat),
+    cs.map (·.2) = cs'.map (·.2) → dispatchedBefore (cs.take i) = dispatchedBefore (cs'.take i) := by
+  intro cs
+  induction cs with
+  | nil => intro cs' i h; cases cs' with
+    | nil => rfl
+    | cons c r => simp at h
+  | cons c r ih =>
+    intro cs' i h
+    cases cs' with
+    | nil => simp at h
+    | cons c' r' =>
+      simp only [List.map_cons, List.cons.injEq] at h
+      cases i with
+      | zero => rfl
+      | succ j =>
+        obtain ⟨m, o⟩ := c
+        obtain ⟨m', o'⟩ := c'
+        simp only at h
+        simp only [List.take_succ_cons, dispatchedBefore, h.1, ih r' j h.2]
+
+/-- Changing what the hook does on OTHER calls (return, nil context, panic in start, panic in
+end) changes nothing for call `i`: two histories with the same calls and the same hook behaviour
+on call `i` record the same events for it. -/
+theorem history_modes_independent (cs cs' : List (HookMode × CallOutcome)) (tok i : Nat)
+    (h : i < cs.length) (h' : i < cs'.length) (hsame : cs.map (·.2) = cs'.map (·.2))
+    (hmode : cs[i].1 = cs'[i].1) :
+    (historyEvents tok cs)[i]? = (historyEvents tok cs')[i]? := by
+  rw [history_local cs tok i h, history_local cs' tok i h', dispatchedBefore_congr cs cs' i hsame, hmode]
+  have : cs[i].2 = cs'[i].2 := by
+    have h1 : (cs.map (·.2))[i]'(by simpa using h) = (cs'.map (·.2))[i]'(by simpa using h') := by
+      simp only [hsame]
+    simpa using h1
+  rw [this]
+
+/-- Tokens are fresh: the token of call `i` is the initial token plus the number of dispatched
+calls before it, so two dispatched calls never share a token. -/
+theorem history_tokens_fresh (cs : List (HookMode × CallOutcome)) (tok i j : Nat)
+    (hi : i < j) (hj : j < cs.length) (hdi : (cs[i]'(by omega)).2.dispatched = true) :
+    tok + dispatchedBefore (cs.take i) < tok + dispatchedBefore (cs.take j) := by
+  have key : ∀ (l : List (HookMode × CallOutcome)) (a b : Nat) (hab : a < b) (hb : b ≤ l.length)
+      (hd : (l[a]'(by omega)).2.dispatched = true),
+      dispatchedBefore (l.take a) < dispatchedBefore (l.take b) := by
+    intro l
+    induction l with
+    | nil => intro a b hab hb; simp at hb; omega
+    | cons c r ih =>
+      intro a b hab hb hd
+      obtain ⟨m, o⟩ := c
+      cases b with
+      | zero => omega
+      | succ b' =>
+        cases a with
+        | zero =>
+          simp only [List.getElem_cons_zero] at hd
+          simp [dispatchedBefore, hd]
+          omega
+        | succ a' =>
+          simp only [List.take_succ_cons, dispatchedBefore]
+          have := ih a' b' (by omega) (by simpa using hb) (by simpa using hd)
+          omega
+  have := key cs i j hi (by omega) hdi
+  omega
+
+/-! ### End gets an error exactly when the response reports one -/
+
+theorem hasExc_iff (bs : List Batch) : hasExc bs = true ↔ 0 < C06.excCount bs := by
+  unfold hasExc C06.excCount
+  rw [List.any_eq_true, List.length_pos_iff_exists_mem]
+  constructor
+  · rintro ⟨b, hb, he⟩; exact ⟨b, List.mem_filter.2 ⟨hb, he⟩⟩
+  · rintro ⟨b, hb⟩; have := List.mem_filter.1 hb; exact ⟨b, this.1, this.2⟩
+
+/-- **end_err_iff_response_error (pipe unary).** -/
+theorem pipe_unary_err_iff (m : UMethod) (lvl rid : Bytes) (s : UnaryScript) :
+    (pipeUnaryOutcome m lvl rid s).dispatched = true ∧
+    (pipeUnaryOutcome m lvl rid s).handlerErr = (pipeUnaryOutcome m lvl rid s).respError := by
+  refine ⟨rfl, ?_⟩
+  unfold pipeUnaryOutcome
+  simp only
+  have hshape := C04.unary_shape_pipe m lvl rid s
+  have herr : (serveUnary m lvl rid s).2 = (C04.failure s.outcome).map SrvErr.mk := by
+    unfold serveUnary
+    have := C04.handler_err lvl s
+    cases hs : (runHandler lvl s).callErr with
+    | some e => simp [hs] at this ⊢; exact this
+    | none =>
+      simp only [hs] at this ⊢
+      by_cases hv : m.isVoid = true <;> simp [hv, this]
+  rw [herr, hshape]
+  unfold hasExc
+  rw [List.any_append]
+  have hlogs : ((s.logs.filter (C04.keepLog lvl)).map (C04.logBatch rid)).any Batch.isExc = false := by
+    rw [List.any_eq_false]
+    intro b hb
+    obtain ⟨lc, _, rfl⟩ := List.mem_map.1 hb
+    simp [C04.logBatch, Batch.isExc]
+  rw [hlogs]
+  unfold C04.terminal C04.failure
+  cases s.outcome with
+  | ret v => by_cases hv : m.isVoid = true <;> simp [hv, Batch.isExc]
+  | fail e => simp [Batch.isExc]
+  | panic p => simp [Batch.isExc]
+
+/-- **end_err_iff_response_error (HTTP unary).** -/
+theorem http_unary_err_iff (m : UMethod) (lvl rid : Bytes) (s : UnaryScript) :
+    (httpUnaryOutcome m lvl rid s).dispatched = true ∧
+    (httpUnaryOutcome m lvl rid s).handlerErr = (httpUnaryOutcome m lvl rid s).respError := by
+  refine ⟨rfl, ?_⟩
+  have hp := (pipe_unary_err_iff m lvl rid s).2
+  have ha := C04.pipe_http_agree m lvl rid s
+  unfold httpUnaryOutcome pipeUnaryOutcome at *
+  simp only at hp ⊢
+  rw [ha.1, ha.2.1, hp]
+  cases hx : hasExc (serveUnary m lvl rid s).1.batches with
+  | true => simp
+  | false =>
+    simp only [Bool.or_false]
+    -- no exception batch ⇒ the handler did not fail ⇒ no error header
+    have hnone : (serveUnary m lvl rid s).2.isSome = false := by rw [hp]; exact hx
+    have hf : (C04.failure s.outcome).isSome = false := by
+      have herr : (handleUnary m lvl rid s).2 = (serveUnary m lvl rid s).2 := ha.2.1
+      cases hfo : C04.failure s.outcome with
+      | none => rfl
+      | some msg =>
+        exfalso
+        have := (C04.no_result_on_failure .pipe m lvl rid s msg hfo).2.1
+        have hmem : Batch.exc msg (ridOpt rid) ∈ (serveUnary m lvl rid s).1.batches := by
+          have h2 : Batch.exc msg (ridOpt rid) ∈ (unaryResponse .pipe m lvl rid s).batches.filter Batch.isExc := by
+            rw [this]; simp
+          exact (List.mem_filter.1 h2).1
+        have : hasExc (serveUnary m lvl rid s).1.batches = true := by
+          unfold hasExc; rw [List.any_eq_true]; exact ⟨_, hmem, rfl⟩
+        rw [hx] at this; cases this
+    cases hh : (handleUnary m lvl rid s).1.errorHeader with
+    | false => rfl
+    | true => have := ha.2.2.2.1 hh; rw [hf] at this; cases this
+
+/-- **end_err_iff_response_error (pipe stream).** -/
+theorem pipe_stream_err_iff (m : SMethod) (lvl rid : Bytes) (s : StreamScript) (input : InputStream) :
+    (pipeStreamOutcome m lvl rid s input).dispatched = true ∧
+    (pipeStreamOutcome m lvl rid s input).handlerErr = (pipeStreamOutcome m lvl rid s input).respError := by
+  refine ⟨rfl, ?_⟩
+  unfold pipeStreamOutcome
+  simp only
+  have h := C06.serve_exception_iff_error m lvl rid s input
+  have hany : ∀ (l : List IpcStream),
+      l.any (fun st => hasExc st.batches) = decide (0 < (l.map (fun st => C06.excCount st.batches)).sum) := by
+    intro l
+    induction l with
+    | nil => rfl
+    | cons a r ih =>
+      simp only [List.any_cons, List.map_cons, List.sum_cons, ih]
+      cases hx : hasExc a.batches with
+      | true => have := (hasExc_iff a.batches).1 hx; simp; omega
+      | false =>
+        have : C06.excCount a.batches = 0 := by
+          cases hc : C06.excCount a.batches with
+          | zero => rfl
+          | succ n => have := (hasExc_iff a.batches).2 (by omega); rw [hx] at this; cases this
+        simp [this]
+  rw [hany, h]
+  cases (serveStream m lvl rid s input).handlerErr <;> simp
+
+theorem producerResponse_err_iff (s : StreamScript) (limit k : Nat) (enc : Bool) :
+    (producerResponse s limit k enc).outcome.dispatched = true ∧
+    (producerResponse s limit k enc).outcome.handlerErr = (producerResponse s limit k enc).outcome.respError := by
+  unfold producerResponse
+  simp only
+  cases (produceLoop s limit k).err with
+  | some e => exact ⟨rfl, rfl⟩
+  | none =>
+    by_cases hf : (produceLoop s limit k).finished = true
+    · simp [hf]
+    · by_cases he : enc = true <;> simp [hf, he, httpFail]
+
+/-- **end_err_iff_response_error (HTTP stream init)**, including the producer whose continuation
+token cannot be minted and the exchange init whose state cannot be sealed (fixed by the
+`fix:` commit recorded in findings.d/C37.json). -/
+theorem http_init_err_iff (m : SMethod) (limit : Nat) (s : StreamScript) (enc : Bool) :
+    (httpInit m limit s enc).outcome.dispatched = true ∧
+    (httpInit m limit s enc).outcome.handlerErr = (httpInit m limit s enc).outcome.respError := by
+  unfold httpInit
+  cases s.init with
+  | fail e => exact ⟨rfl, rfl⟩
+  | panic p => exact ⟨rfl, rfl⟩
+  | nilResult => exact ⟨rfl, rfl⟩
+  | ok st hook hdr ri =>
+    simp only
+    cases decideMode m.typ st with
+    | none => exact ⟨rfl, rfl⟩
+    | some isP =>
+      cases isP with
+      | true => exact producerResponse_err_iff s limit 0 enc
+      | false => by_cases he : enc = true <;> simp [he, httpFail]
+
+/-- **end_err_iff_response_error (HTTP exchange / continuation / cancel)**: for every request
+that reaches the dispatch point. -/
+theorem http_exchange_err_iff (m : SMethod) (limit : Nat) (s : StreamScript) (isP : Bool) (k : Nat)
+    (src : Schema) (inp : HttpInput)
+    (hd : (httpExchange m limit s isP k src inp).outcome.dispatched = true) :
+    (httpExchange m limit s isP k src inp).outcome.handlerErr =
+      (httpExchange m limit s isP k src inp).outcome.respError := by
+  unfold httpExchange at hd ⊢
+  cases inp with
+  | cancel => rfl
+  | data v lib =>
+    simp only at hd ⊢
+    cases hc : httpCasted m src v lib with
+    | error e => rw [hc] at hd; simp at hd
+    | ok inVal =>
+      simp only
+      by_cases hp : isP = true
+      · simp only [hp, if_true]; exact (producerResponse_err_iff s limit k true).2
+      · simp only [hp, Bool.false_eq_true, if_false]
+        rcases ht : runTurn false inVal (s.turnAt k) with ⟨c, e⟩
+        cases e with
+        | some e => rfl
+        | none => by_cases hdat : c.hasData = true <;> simp [hdat, httpFail]
+
+/-- Undeserializable parameters are dispatched and reported on both sides; an unknown method is
+not dispatched at all. -/
+theorem fixed_outcomes :
+    badParamsOutcome.dispatched = true ∧ badParamsOutcome.handlerErr = badParamsOutcome.respError ∧
+    unknownMethodOutcome.dispatched = false := ⟨rfl, rfl, rfl⟩
+
+/-- **end_err_iff_response_error**, assembled: for any dispatched call whose outcome satisfies
+`handlerErr = respError` (all call kinds above) and a hook whose start returns, the single end
+event carries `err != nil` exactly when the response reports an error. -/
+theorem end_err_iff_response_error (mode : HookMode) (tok : Nat) (o : CallOutcome)
+    (hd : o.dispatched = true) (hm : mode ≠ .panicStart) (ho : o.handlerErr = o.respError) :
+    ∃ p, dispatch (some mode) tok o = [.start tok false, .finish (some tok) o.respError p] := by
+  rw [one_start_one_end mode tok o hd hm, ho]; exact ⟨_, rfl⟩
+
+/-! ### The HTTP produce loop stops at the batch limit -/
+
+/-- `produceLoop` runs at most `fuel` further turns… and at least reports where it stopped:
+the cursor only moves forward, by at most `fuel` turns when the limit stops it. -/
+theorem produceLoop_cursor (s : StreamScript) : ∀ (fuel k : Nat),
+    k ≤ (produceLoop s fuel k).cursor ∧ (produceLoop s fuel k).cursor ≤ k + fuel ∧
+    ((produceLoop s fuel k).finished = true → (produceLoop s fuel k).err = none) := by
+  intro fuel
+  induction fuel with
+  | zero => intro k; simp [produceLoop]
+  | succ f ih =>
+    intro k
+    simp only [produceLoop]
+    rcases runTurn true (natToken k) (s.turnAt k) with ⟨c, e⟩
+    cases e with
+    | some e => simp
+    | none =>
+      simp only
+      by_cases h1 : (!c.finished && !c.hasData) = true
+      · simp [h1]
+      · simp only [h1, Bool.false_eq_true, if_false]
+        by_cases h2 : c.finished = true
+        · simp [h2]
+        · simp only [h2, Bool.false_eq_true, if_false]
+          have := ih (k + 1)
+          omega
+
+/-! ### Non-vacuity -/
+
+example : dispatch (some .panicEnd) 3 ⟨true, true, true⟩ = [.start 3 false, .finish (some 3) true true] := by decide
+example : dispatch (some .panicStart) 3 ⟨true, false, false⟩ = [.start 3 true] := by decide
+example : historyEvents 1 [(.panicStart, ⟨true, false, false⟩), (.normal, unknownMethodOutcome),
+      (.panicEnd, badParamsOutcome), (.nilCtx, ⟨true, false, false⟩)]
+    = [[.start 1 true], [], [.start 2 false, .finish (some 2) true true],
+       [.start 3 false, .finish (some 3) false false]] := by decide
+-- a producer over HTTP with batch limit 2 whose state type cannot be sealed: error on both sides
+example : (httpInit ⟨.producer, "{x:int64}", true, none, false, "{}"⟩ 2
+      ⟨[], .ok .prod .absent none none, [], ⟨[.echo true], .ok⟩⟩ false).outcome = ⟨true, true, true⟩ := by decide
+example : (httpInit ⟨.producer, "{x:int64}", true, none, false, "{}"⟩ 2
+      ⟨[], .ok .prod .absent none none, [], ⟨[.echo true], .ok⟩⟩ true) = ⟨⟨true, false, false⟩, some 2⟩ := by decide
 
 end Vgi.Props.C37
